@@ -121,13 +121,16 @@ func inSet(idx []int, i int) bool {
 	return false
 }
 
-// exact23 returns validator indices of vs holding exactly 2/3 of the power.
+// exact23 returns validator indices of vs holding the largest power that is NOT more than 2/3 of the
+// total (exactly 2/3 when the total is a multiple of 3, e.g. 4 of 6; 9 of 14 otherwise).
 func exact23(vs *types.ValidatorSet) []int {
 	t := vs.TotalVotingPower()
-	if t*2%3 != 0 {
-		return nil
+	for want := t * 2 / 3; want > 0; want-- {
+		if s := subsetWithPower(vs, want); s != nil {
+			return s
+		}
 	}
-	return subsetWithPower(vs, t*2/3)
+	return nil
 }
 
 // majorityOf returns indices (lowest first) whose power just exceeds 2/3 of vs.
